@@ -142,9 +142,22 @@ class Lexer:
         t.value = Bool(token=t.value, lineno=t.lineno, filepath=self.current_filepath())
         return t
 
+    def parse_int(self, t: LexToken, s: str) -> int:
+        """Converts the decimal digits s of token t to an integer."""
+        try:
+            return int(s)
+        except ValueError:
+            # Python limits the number of digits of an integer string.
+            raise LexerError(
+                message="Invalid integer, too many digits",
+                filepath=self.current_filepath(),
+                token=t.value[:16] + "...",
+                lineno=t.lineno,
+            )
+
     def t_UINT_TYPE(self, t: LexToken) -> LexToken:
         r"\buint[0-9]+\b"
-        cap: int = int(t.value[4:])  # uint{n}
+        cap: int = self.parse_int(t, t.value[4:])  # uint{n}
         t.value = Uint(
             cap=cap, token=t.value, lineno=t.lineno, filepath=self.current_filepath()
         )
@@ -152,7 +165,7 @@ class Lexer:
 
     def t_INT_TYPE(self, t: LexToken) -> LexToken:
         r"\bint[0-9]+\b"
-        cap: int = int(t.value[3:])
+        cap: int = self.parse_int(t, t.value[3:])
         t.value = Int(
             cap=cap, token=t.value, lineno=t.lineno, filepath=self.current_filepath()
         )
@@ -172,7 +185,7 @@ class Lexer:
         r"[0-9]+"
         # NOTE: Currently only non-negative integers are supported.
         # FIXME Negative integers?
-        t.value = int(t.value)
+        t.value = self.parse_int(t, t.value)
         return t
 
     def t_BOOL_LITERAL(self, t: LexToken) -> LexToken:
